@@ -148,7 +148,16 @@ def same_name(a, b):
     b = PRELUDE.get(b, b)
     if a == b:
         return True
-    return a.endswith('::' + b) or b.endswith('::' + a)
+    if a.endswith('::' + b) or b.endswith('::' + a):
+        return True
+    # public re-export path vs definition path: same first (crate) and last segment, one a subsequence of the other
+    sa, sb = a.split('::'), b.split('::')
+    if sa[-1] != sb[-1] or sa[0] != sb[0] or len(sa) < 2 or len(sb) < 2:
+        return False
+    if len(sa) > len(sb):
+        sa, sb = sb, sa
+    it = iter(sb)
+    return all(x in it for x in sa)
 
 
 def unify(pat, con, vars_, b):
